@@ -206,6 +206,12 @@ def run(tier, seed):
 
     # ---- C: the real code ------------------------------------------------
     jobs = build_jobs(tier, rng)
+    only = os.environ.get("VERIF_C11_FAMILIES")      # development aid: restrict the run to some input families
+    if only:
+        jobs = [j for j in jobs if j["family"] in only.split(",")]
+        for n, j in enumerate(jobs):
+            j["id"] = n
+        cov["restricted_to_families"] = only
     ch, outs = run_real_code(jobs, wd)
     if ch.rc != 0 and not outs:
         sys.stderr.write(ch.err[-3000:])
